@@ -325,7 +325,12 @@ def prepare(cfg):
     STATE['case_and_condition'] = any('case' in e and 'condition' in e for e in tprog.walk(prog))
     srcs = set()
     collect_sources(prog, srcs)
-    STATE['codes'] = {s: compile(s, '<probe>', 'eval') for s in srcs}
+    STATE['codes'] = {}
+    for src in srcs:
+        try:
+            STATE['codes'][src] = compile(src, '<probe>', 'eval')
+        except SyntaxError:
+            STATE['codes'][src] = None       # planted invalid expression (C19)
     for k in range(6):
         N[k] = 1
     for name, kind, slot in cfg.get('vars', []):
@@ -413,13 +418,16 @@ def run_engine(bindings):
             out = out + '#handler:' + ','.join(HANDLER_CALLS)
         return ('ok', out, list(LOG))
     except Exception as exc:
-        return ('exc', type(exc).__mro__[-3].__name__ if False else _base_name(exc), list(LOG))
+        extra = None
+        if hasattr(exc, 'token') and hasattr(exc, 'offset'):
+            extra = (str(exc.token), exc.offset)
+        return ('exc', _base_name(exc), list(LOG), extra)
 
 
 def _base_name(exc):
     # render errors are re-typed subclasses: report the first builtin/base class name
     for c in type(exc).__mro__:
-        if c.__module__ in ('builtins', 'checks.hG'):
+        if c.__module__ in ('builtins', 'checks.hG', 'vlib.refsem', 'chameleon.exc') and c.__name__ != 'RenderError':
             return c.__name__
     return type(exc).__name__
 
@@ -451,7 +459,7 @@ def run_ref(bindings, **kw):
             text = text + '#handler:' + ','.join(_base_name(e) for e in ref.handler_calls)
         return ('ok', text, log, ref.marks)
     except Exception as exc:
-        return ('exc', _base_name(exc), log, ref.marks)
+        return ('exc', _base_name(exc), log, ref.marks, exc.args)
 
 
 def _agree1(eng, ref):
